@@ -75,15 +75,17 @@ type Contract struct {
 }
 
 type ContractSet struct {
-	CreateInv   [][3]string          // pkgDir, type name, spec function
-	ByFunc      map[string]*Contract // key: pkgpath + "." + Func
-	Axioms      []*Clause
-	Stable      []string // "T.f"
-	JSPreserved []string // "T.f"
-	All         []*Contract
-	Files       []string
-	Errors      []string
-	Scan        []string // occurrences of assume/trusted/axiom for the evidence
+	Constructors [][2]string          // type name, function (RelString) allowed to store to its stable fields
+	TypeInv      [][3]string          // pkgDir, type ("*T" or "T"), spec function
+	CreateInv    [][3]string          // pkgDir, type name, spec function
+	ByFunc       map[string]*Contract // key: pkgpath + "." + Func
+	Axioms       []*Clause
+	Stable       []string // "T.f"
+	JSPreserved  []string // "T.f"
+	All          []*Contract
+	Files        []string
+	Errors       []string
+	Scan         []string // occurrences of assume/trusted/axiom for the evidence
 }
 
 var clauseRe = regexp.MustCompile(`^(requires|ensures_panic|ensures|assigns|safe|pure|trusted|inline|uninterpreted|overflow-checked|wrap64|nopanic|sweep-callers|ghost|capture|props|replay_assume|replay|observe)\b\s*(.*)$`)
@@ -155,6 +157,19 @@ func parseContractFile(cs *ContractSet, path, pkgDir string) {
 			c.Owner = &Contract{PkgDir: pkgDir, PkgName: pkgName, Func: "axiom", File: path}
 			cs.Axioms = append(cs.Axioms, c)
 			cs.Scan = append(cs.Scan, fmt.Sprintf("axiom %s (%s:%d)", c.Text, filepath.Base(path), ln+1))
+		case strings.HasPrefix(l, "constructor-of "):
+			f := strings.Fields(strings.TrimPrefix(l, "constructor-of "))
+			if len(f) >= 2 {
+				for _, fn := range f[1:] {
+					cs.Constructors = append(cs.Constructors, [2]string{f[0], fn})
+				}
+			}
+		case strings.HasPrefix(l, "typeinv "):
+			f := strings.Fields(strings.TrimPrefix(l, "typeinv "))
+			if len(f) == 2 {
+				cs.TypeInv = append(cs.TypeInv, [3]string{pkgDir, f[0], f[1]})
+				cs.Scan = append(cs.Scan, fmt.Sprintf("rely: every existing %s satisfies %s (guaranteed by the contracts of its constructors and the stable-field store scan) (%s:%d)", f[0], f[1], filepath.Base(path), ln+1))
+			}
 		case strings.HasPrefix(l, "createinv "):
 			f := strings.Fields(strings.TrimPrefix(l, "createinv "))
 			if len(f) == 2 {
@@ -674,6 +689,10 @@ func (cs *ContractSet) genOverlay(sp *srcPkg, contracts []*Contract, axioms []*C
 			switch {
 			case t == "all" || t == "nothing":
 				cl.Desig = t
+			case strings.HasPrefix(t, "nothing if "):
+				// conditional frame: nothing when the condition holds in the pre-state, anything otherwise
+				cl.Desig = "nothing-if"
+				emit(cl, base, "bool", rewriteImplies(strings.TrimPrefix(t, "nothing if ")))
 			case strings.HasPrefix(t, "any(") && strings.HasSuffix(t, ")"):
 				cl.Desig = "any"
 				tf := t[4 : len(t)-1]
